@@ -425,14 +425,16 @@ impl Prop for C09 {
     fn assumptions(&self) -> Vec<String> {
         vec![
             "rayon-core is replaced by a stub that implements join_context/join/current_num_threads/current_thread_index/in_place_scope on shuttle; the real work-stealing pool is exercised only by the Miri leg".into(),
-            "preemption inside a task happens at log records, on_instr_loc calls and (a third of the runs) at every k-th control-flow edge of the instrumented parallel walrus build; code of OTHER crates (std, rayon, id-arena) is atomic between two such points".into(),
+            "preemption inside a task happens at log records, on_instr_loc calls, before atomic operations (five runs in eight) and at every k-th control-flow edge (four runs in nine) of code generated in the instrumented parallel walrus build (its own code and every generic of std / dependencies instantiated there); precompiled code of other crates is atomic between two such points".into(),
+            "sequentially consistent interleavings only; blocking std primitives are modelled at the futex level (wait parks until a matching wake; spurious wake-ups are an injected fault); thread-identity primitives (thread::park, mpsc blocking receive) and thread-locals see ONE OS thread for all simulated tasks".into(),
+            format!("thread-locals: {}", if crate::simrt::tls_mode() { "the parallel build of THIS tree uses thread-local symbols, so user closures were run to completion (task-granular schedules only)" } else { "the parallel build of this tree defines / references no thread-local symbol (std's hash-seed cell excepted); if it did, schedules would be task-granular (an in-closure switch would share one thread-local between tasks that real threads keep apart)" }),
             "pool widths 1..16; error identity on rejection is not compared, only the decision".into(),
         ]
     }
     fn components(&self) -> Value {
         json!({
             "real": ["walrus (serial build)", "walrus (parallel build)", "walrus-macro", "id-arena (rayon feature)", "rayon 1.12 iterators/plumbing/collect", "wasmparser", "wasm-encoder", "gimli", "std"],
-            "stub": ["rayon-core (simulated fork-join on shuttle)", "log::Log implementation (scheduling point)", "getrandom (seeded entropy)"]
+            "stub": ["rayon-core (simulated fork-join on shuttle)", "log::Log implementation (scheduling point)", "getrandom (seeded entropy)", "libc syscall: futex wait/wake of simulated tasks modelled in the simulator, everything else passed to the kernel", "__tsan_atomic* / __sanitizer_cov_trace_pc_guard (scheduling point + the real operation)"]
         })
     }
 }
